@@ -216,7 +216,7 @@ def check_c04(tier, seed):
                   '  match compile (fun f => dget seqb files f) (parse_fuel root) 8 root with\n'
                   '  | Some s => jv_eqb (jv_of_spec numval s) r &&\n'
                   '      match flat_of (fun f => dget seqb files f) (parse_fuel root) 8 root with\n'
-                  '      | Some fm => if str_nodupb (define_keys fm) then jv_eqb (jv_of_spec numval (flat_spec fm)) r else true\n'
+                  '      | Some fm => jv_eqb (jv_of_spec numval (flat_spec fm)) r\n'
                   '      | None => false end\n'
                   '  | None => false end.')
         lbad, lcounters, lerrors = C.run_cases('C04L', IMPORTS, 'list (string * list tok) * list tok * jv', lcheck, lcases, {'FLAT': 'count_true flat_ok cases'}, shard=20)
@@ -244,7 +244,7 @@ def check_c04(tier, seed):
                    'random whitespace and comments; 2 layouts per specification with 1-3 included files, repeated and nested includes; the large '
                    'shipped specifications are additionally cut into per-declaration cases for the Coq run; non-trivial = more than 60 tokens',
            'samples': [next((m['text'][:800] for m in metas if m.get('ntokens', 0) > 60), '')], 'streams': streams, 'skipped_unprintable': skipped,
-           'premises_met': counters.get('WF', 0), 'layout_cases': len(lcases), 'layout_cases_flattening_premise_met': lcounters.get('FLAT', 0), 'mismatches': len(bad) + len(lbad), 'exhaustive': False}
+           'premises_met': counters.get('WF', 0), 'layout_cases': len(lcases), 'layout_cases_with_distinct_define_keys': lcounters.get('FLAT', 0), 'mismatches': len(bad) + len(lbad), 'exhaustive': False}
     return {'violations': violations, 'coverage': cov,
             'trusted': ['the ANTLR-generated lexer and parser (mal_lexer.py, mal_parser.py) implement mal.g4: modelled by MalParse.v, compared on '
                         'every case (tokens, acceptance, trees through the visitor), not verified',
